@@ -1104,13 +1104,9 @@ func (c ipamClient) AssignIP(ctx context.Context, args AssignIPArgs) error {
 		// in the KVPair.
 		_, err = c.blockReaderWriter.updateBlock(ctx, obj)
 		if err != nil {
-			if _, ok := err.(cerrors.ErrorResourceUpdateConflict); ok {
-				log.WithError(err).Debug("CAS error assigning IP - retry")
-				continue
-			}
-
-			log.WithError(err).Warningf("Update failed on block %s", block.CIDR.String())
 			if args.HandleID != nil {
+				// The block write failed so undo the handle increment from above, whether
+				// or not we're going to retry (the retry increments the handle again).
 				// Extend timeout for the cleanup, if needed.
 				cleanupCtx, cancel := contextForCleanup(ctx)
 				if err := c.decrementHandle(cleanupCtx, *args.HandleID, blockCIDR, 1, nil); err != nil {
@@ -1118,6 +1114,12 @@ func (c ipamClient) AssignIP(ctx context.Context, args AssignIPArgs) error {
 				}
 				cancel()
 			}
+			if _, ok := err.(cerrors.ErrorResourceUpdateConflict); ok {
+				log.WithError(err).Debug("CAS error assigning IP - retry")
+				continue
+			}
+
+			log.WithError(err).Warningf("Update failed on block %s", block.CIDR.String())
 			return err
 		}
 		return nil
